@@ -94,7 +94,7 @@ def run_check(prop, tier, seed, repo, jobfilter=None, procs=None):
                 if ob["status"] != "discharged" and ob["kind"] == "event-match":
                     truncated += 1
                 continue
-            if ob["kind"] == "bounded":
+            if ob["kind"] == "bounded" or ob.get("bounded"):
                 # bounded stand-ins are reported, can raise violations, but never count as discharged obligations
                 bounded_runs.append({"check": ob["name"], "result": ob["status"], "detail": (ob.get("detail") or "")[:300], "label": "bounded"})
                 if ob["status"] != "discharged":
@@ -122,14 +122,14 @@ def run_check(prop, tier, seed, repo, jobfilter=None, procs=None):
     if total == 0 and not undecided:
         errors.append("zero obligations generated")
     for r in results:
-        if not r.get("crash") and not r.get("undecided") and r.get("paths", 1) == 0 and r.get("mode") == "prove" and not r.get("synthetic"):
+        if not r.get("crash") and not r.get("undecided") and r.get("paths", 1) == 0 and not r.get("synthetic"):
             errors.append(f"job {r['job']} explored zero complete paths")
     canary_report = []
     for can in cfg.get("canaries", []):
         cres = runner.run_jobs([can], mode="prove", procs=1, repo=repo)[0]
         refuted = any(o["status"] == "failed" for o in cres["obligations"])
-        canary_report.append({"canary": can[1], "refuted": refuted})
-        if not refuted:
+        canary_report.append({"canary": can[1], "refuted": refuted, "undecided": cres.get("undecided")})
+        if not refuted and not cres.get("undecided"):
             errors.append(f"must-fail canary {can[1]} was not refuted (vacuous or unsound engine)")
     # ---- undecided jobs: bounded stand-in ----------------------------------------------------------
     bounded_parts = []
